@@ -7,7 +7,7 @@ echo "| seed | property | change (agent's summary) | needs | quick check of its 
 echo "|---|---|---|---|---|" >> $out
 for d in seeded/C*-*/; do
   id=$(basename $d); P=${id%%-*}
-  det=$(tools/seed_detect.sh $d $P quick 2>&1 | tail -1)
+  if grep -q '"status": "obsolete"' $d/meta.json; then det="OBSOLETE (see meta.json: neutralised or superseded by a later fix: commit)"; else det=$(tools/seed_detect.sh $d $P quick 2>&1 | tail -1); fi
   python3 - "$d" "$id" "$P" "$det" >> $out <<'PY'
 import json,sys
 d,id_,p,det=sys.argv[1:5]
